@@ -36,9 +36,13 @@ pub static HOLD: Mutex<(bool, bool)> = Mutex::new((false, false)); // (reader is
 pub static HOLD_CV: std::sync::Condvar = std::sync::Condvar::new();
 
 thread_local! { static HELD_AT_PIN: std::cell::Cell<bool> = const { std::cell::Cell::new(false) }; }
+thread_local! { static HELD_BEFORE_PIN: std::cell::Cell<bool> = const { std::cell::Cell::new(false) }; }
 
 pub fn point(name: &'static str) {
-    if (name == "c08_unpinned" && HELD_READER.with(|h| h.get())) || (name == "c08_pinned" && HELD_AT_PIN.with(|h| h.get())) {
+    if (name == "c08_unpinned" && HELD_READER.with(|h| h.get()))
+        || (name == "c08_pinned" && HELD_AT_PIN.with(|h| h.get()))
+        || (name == "c08_before_pin" && HELD_BEFORE_PIN.with(|h| h.replace(false)))
+    {
         let mut g = HOLD.lock().unwrap();
         g.0 = true;
         HOLD_CV.notify_all();
@@ -316,6 +320,93 @@ fn directed_expired_pinned_reader(dir: &str, sh: u64) -> (String, String) {
     (format!("note race directed=expired-pinned-reader {status}"), verdict)
 }
 
+/// Directed (C07 with C08): a read-modify-write with an EXPLICIT timestamp T (increment, compare-and-swap,
+/// JSON patch) on a key whose generation G1 lives only on the device is parked after its optimistic
+/// read of G1 and before it pins G1's extent; meanwhile another writer installs G2 with G1.ts < T <=
+/// G2.ts and a flush makes G2 durable and retires G1's extent.  Released, the call falls over to G2.
+/// Last-writer-wins: it must be refused (OlderTimestamp) or leave the key at G2 -- the key's
+/// timestamp never goes backwards and G2's value is not overwritten by a write stamped T.
+fn directed_parked_writer(dir: &str, sh: u64) -> (String, String) {
+    let path = format!("{dir}/dev/race_pw_{sh}.feox");
+    let mut status = Vec::new();
+    let mut run = |kind: &'static str| -> Result<(), String> {
+        let _ = std::fs::remove_file(&path);
+        *HOLD.lock().unwrap() = (false, false);
+        let store = Arc::new(
+            FeoxStore::builder().device_path(path.clone()).file_size(64 * 4096).hash_bits(6).enable_caching(false).no_memory_limit().build().map_err(|e| format!("cannot-create-store {e}"))?,
+        );
+        let key = b"pw-key".to_vec();
+        let g1: Vec<u8> = match kind {
+            "incr" => 5i64.to_le_bytes().to_vec(),
+            "patch" => br#"{"a":1}"#.to_vec(),
+            _ => b"g1-value".to_vec(),
+        };
+        let g2: Vec<u8> = match kind {
+            "incr" => 7i64.to_le_bytes().to_vec(),
+            "patch" => br#"{"a":2}"#.to_vec(),
+            _ => b"g1-value".to_vec(), // the same bytes: the compare-and-swap's expectation still matches
+        };
+        store.insert_with_timestamp(&key, &g1, Some(100)).map_err(|e| format!("setup {e}"))?;
+        store.flush().map_err(|e| format!("flush {e}"))?;
+        let writer = {
+            let (store, key) = (store.clone(), key.clone());
+            std::thread::spawn(move || {
+                HELD_BEFORE_PIN.with(|h| h.set(true));
+                match kind {
+                    "incr" => store.atomic_increment_with_timestamp(&key, 1, Some(150)).map(|_| ()),
+                    "patch" => store.json_patch_with_timestamp(&key, br#"[{"op":"replace","path":"/a","value":9}]"#, Some(150)),
+                    _ => store.compare_and_swap_with_timestamp(&key, b"g1-value", b"swapped", Some(150)).map(|_| ()),
+                }
+            })
+        };
+        let release = || {
+            let mut g = HOLD.lock().unwrap();
+            g.1 = true;
+            HOLD_CV.notify_all();
+        };
+        {
+            let mut g = HOLD.lock().unwrap();
+            let t0 = std::time::Instant::now();
+            while !g.0 {
+                if t0.elapsed() > Duration::from_millis(1500) {
+                    drop(g);
+                    release();
+                    let _ = writer.join();
+                    status.push(format!("{kind}:not-parked"));
+                    return Ok(());
+                }
+                g = HOLD_CV.wait_timeout(g, Duration::from_millis(20)).unwrap().0;
+            }
+        }
+        let r2 = store.insert_with_timestamp(&key, &g2, Some(200)).map(|_| ());
+        let rf = store.flush();
+        release();
+        let got = writer.join().map_err(|_| "parked-writer-panicked".to_string())?;
+        if r2.is_err() || rf.is_err() {
+            status.push(format!("{kind}:upsert-or-flush-failed"));
+            return Ok(());
+        }
+        let ts_now = store.verif_snapshot().iter().find(|r| r.key == key).map(|r| r.timestamp);
+        let val_now = store.get(&key).ok();
+        if ts_now.map_or(true, |t| t < 200) {
+            return Err(format!("timestamp-went-backwards kind={kind} call-stamped-150-answered={} key-now-at={ts_now:?} after-a-write-stamped-200-was-accepted", if got.is_ok() { "Ok" } else { "Err" }));
+        }
+        if val_now.as_deref() != Some(&g2[..]) {
+            return Err(format!("older-write-overwrote-a-newer-one kind={kind} (call stamped 150 changed the value accepted at 200)"));
+        }
+        status.push(format!("{kind}:{}", if got.is_ok() { "answered-ok-without-effect" } else { "refused" }));
+        Ok(())
+    };
+    let res = std::panic::catch_unwind(std::panic::AssertUnwindSafe(|| run("incr").and_then(|_| run("cas")).and_then(|_| run("patch"))));
+    let verdict = match res {
+        Ok(Ok(())) => "ok".to_string(),
+        Ok(Err(e)) => format!("FAIL {e}"),
+        Err(_) => "FAIL an-api-call-panicked".to_string(),
+    };
+    let _ = std::fs::remove_file(&path);
+    (format!("note race directed=parked-explicit-timestamp-writer {}", status.join(",")), verdict)
+}
+
 pub fn racechild(opts: &Opts) -> i32 {
     let dir = opts.str("out", "/verif/.build/cases/race");
     let sh = opts.u64("shard", 0);
@@ -336,6 +427,10 @@ pub fn racechild(opts: &Opts) -> i32 {
     }
     if sh == 2 || sh == 3 {
         let (case, verdict) = directed_expired_pinned_reader(&dir, sh);
+        out.emit3(&case, "note", &verdict);
+    }
+    if sh == 4 || sh == 5 {
+        let (case, verdict) = directed_parked_writer(&dir, sh);
         out.emit3(&case, "note", &verdict);
     }
     let mut summary = std::collections::BTreeMap::<String, u64>::new();
